@@ -784,7 +784,7 @@ func (e *env) c02() {
 
 func (e *env) walks(prop string) {
 	roots := e.c.Pick(700, 12000)
-	e.r.Rule = "per valid root: exhaustive depth-2 tree of pseudo-legal makes (incl. moves that leave the king in check, undone at once) and a random walk of <=60 nested makes with null moves interleaved when not in check, then full unwinding; after every op the deep snapshot (placements, rights, ep, counters, whole hash history, token fields) is compared with the model; Go asserts undo==snapshot-before (C03) and Hash()==recomputed hash + three placements agree (C04); non-trivial = make of a capture/castling/promotion/en-passant/double-push/rights-changing move or null move with ep; distinct by (FEN, op path). C03 only: deep walks (nesting depth up to 330, crossing 128 and 256 history entries, null moves interleaved, full unwinding, every op under recover; histogram deepwalk-*; non-trivial = walk of depth >= 127)"
+	e.r.Rule = "per valid root: exhaustive depth-2 tree of pseudo-legal makes (incl. moves that leave the king in check, undone at once) and a random walk of <=60 nested makes with null moves interleaved when not in check, then full unwinding; after every op the deep snapshot (placements, rights, ep, counters, whole hash history, token fields) is compared with the model; Go asserts undo==snapshot-before (C03) and Hash()==recomputed hash + three placements agree (C04); non-trivial = make of a capture/castling/promotion/en-passant/double-push/rights-changing move or null move with ep; distinct by (FEN, op path). C03 only: deep walks (nesting depth up to 330, crossing 128 and 256 history entries, null moves interleaved, full unwinding, every op under recover; histogram deepwalk-*; non-trivial = walk of depth >= 127); clock walks (reversible stretches of 130-300 plies, or 40-200 from FENs with clock 90..100, so that the halfmove clock passes 100, 127 and the int8 wrap, with and without castling rights, null moves, an irreversible move at a clock >= 128 in every third; clockwalk-*; non-trivial = walk whose clock reached 128); walks with interference (2-3 boards from StartPos() / FromFEN(same FEN) operated in random alternation, undo compared with the snapshot before its make on every board, untouched boards must not change; aliaswalk-*)"
 	for i := 0; i < roots; i++ {
 		fen, src := e.s.Next()
 		b, valid, _ := e.load(prop, fen)
@@ -803,6 +803,209 @@ func (e *env) walks(prop string) {
 	}
 	if prop == "C03" {
 		e.deepWalks(prop, e.c.Pick(40, 1200))
+		e.clockWalks(prop, e.c.Pick(30, 900))
+		e.aliasWalks(prop, e.c.Pick(30, 900))
+	}
+}
+
+// clockWalks: make/undo walks whose HALFMOVE CLOCK passes 100, 127 and the int8 wrap.  Reversible-only
+// stretches (quiet moves of pieces, preferably not giving check) of 130-300 plies from clock 0, or
+// 40-200 plies from the same roots with the clock field of the FEN set to 90..100 (the largest the
+// parser accepts; >= 28 further reversible plies reach the wrap); roots with castling rights (the
+// shuffles mostly keep them, now and then a king / rook move gives one up at a late clock) and without;
+// en-passant targets at some levels (the root's own target, and in every third walk a double pawn push -
+// or another pawn move / capture - made at a clock >= 128, after which a second reversible stretch
+// follows); null moves interleaved.  Then FULL unwinding, with the deep snapshot compared with the
+// model after every op and every undo compared with the snapshot before its make (runDeep).  The model
+// is exact for every int8 clock (theorem undo_make_anyclock); `valid` is asked for the root only.
+func (e *env) clockWalks(prop string, n int) {
+	rng := e.c.Rng
+	for w := 0; w < n; w++ {
+		wantRights := w%2 == 0
+		late := w%3 == 0 // start from a clock of 90..100
+		var fen string
+		var b *board.Board
+		for {
+			if w%3 == 1 && rng.IntN(4) != 0 {
+				// a root with a double push beside an enemy pawn: the irreversible move made at a clock
+				// >= 128 can then record an en-passant target (the pawns do not move before)
+				ec, ok := posgen.EPDirected(rng)
+				if !ok {
+					continue
+				}
+				fen = ec.Pos.FEN()
+				wantRights = false
+			} else if wantRights && rng.IntN(3) == 0 {
+				cc, ok := posgen.CastlePath(rng)
+				if !ok {
+					continue
+				}
+				fen = cc.Pos.FEN()
+			} else {
+				fen, _ = e.s.Next()
+			}
+			fs := strings.Fields(fen)
+			if late {
+				if len(fs) != 6 || fs[3] != "-" {
+					continue
+				}
+				fs[4] = strconv.Itoa(100 - []int{0, 0, 0, 1, 2, 5, 10}[rng.IntN(7)])
+				fen = strings.Join(fs, " ")
+			}
+			var valid bool
+			b, valid, _ = e.load(prop, fen)
+			if b == nil || !valid || (b.Castles != 0) != wantRights {
+				continue
+			}
+			minor := (b.Pieces[Knight]|b.Pieces[Bishop]|b.Pieces[Queen]|b.Pieces[Rook])&b.Colors[White] != 0 &&
+				(b.Pieces[Knight]|b.Pieces[Bishop]|b.Pieces[Queen]|b.Pieces[Rook])&b.Colors[Black] != 0
+			if (minor || rng.IntN(6) == 0) && len(implutil.Legal(b)) > 0 {
+				break
+			}
+		}
+		target := 130 + rng.IntN(171)
+		if late {
+			target = 40 + rng.IntN(161)
+		}
+		breakAt := -1 // the clock value at which one irreversible move is made (every third walk)
+		if w%3 == 1 {
+			breakAt = 128 + rng.IntN(40)
+		}
+		var ops []op
+		nulls, maxClock, wrappedMakes, epLevels, rightsAtWrap, lateRightsLoss, broke := 0, 0, 0, 0, 0, 0, false
+		genPanic := func() (msg string) {
+			defer func() {
+				if r := recover(); r != nil {
+					msg = fmt.Sprint(r)
+				}
+			}()
+			g, _ := board.FromFEN(fen)
+			clock := int(g.FiftyCnt) // the true (unwrapped) clock
+			for len(ops) < target {
+				if g.EnPassant != 0 {
+					epLevels++
+				}
+				if !g.InCheck(g.STM) && rng.IntN(10) == 0 {
+					g.MakeNullMove()
+					ops = append(ops, op{req: "nm", kind: 'n'})
+					nulls++
+					continue
+				}
+				l := implutil.Legal(g)
+				if len(l) == 0 {
+					break
+				}
+				var keep, quiet, irr, dbl []move.Move
+				for _, x := range l {
+					pc := g.SquaresToPiece[x.From()]
+					if pc == Pawn || g.SquaresToPiece[g.CaptureSq(x)] != NoPiece {
+						irr = append(irr, x)
+						if d := int(x.From()) - int(x.To()); pc == Pawn && (d == 16 || d == -16) {
+							dbl = append(dbl, x)
+						}
+						continue
+					}
+					quiet = append(quiet, x)
+					if g.NewCastles(x) == g.Castles {
+						keep = append(keep, x)
+					}
+				}
+				good := false // a double push beside an enemy pawn is available
+				for _, x := range dbl {
+					good = good || pushNextToEnemyPawn(g, x)
+				}
+				var m move.Move
+				switch {
+				case breakAt >= 0 && !broke && clock >= breakAt && len(irr) > 0 && (good || clock >= breakAt+8):
+					m = irr[rng.IntN(len(irr))]
+					if len(dbl) > 0 && rng.IntN(4) != 0 {
+						m = dbl[rng.IntN(len(dbl))]
+						for _, x := range dbl { // a push beside an enemy pawn can record a target
+							if pushNextToEnemyPawn(g, x) && rng.IntN(4) != 0 {
+								m = x
+							}
+						}
+					}
+					broke = true
+
+				case len(quiet) == 0:
+					m = l[rng.IntN(len(l))]
+				default:
+					pool := keep
+					if len(pool) == 0 || (clock >= 128 && rng.IntN(30) == 0) {
+						pool = quiet
+					}
+					for try := 0; try < 4; try++ {
+						m = pool[rng.IntN(len(pool))]
+						r := g.MakeMove(m)
+						chk := g.InCheck(g.STM)
+						g.UndoMove(m, r)
+						if !chk {
+							break
+						}
+					}
+				}
+				if clock >= 128 {
+					wrappedMakes++
+					if g.Castles != 0 {
+						rightsAtWrap++
+					}
+					if g.NewCastles(m) != g.Castles {
+						lateRightsLoss++
+					}
+				}
+				if g.SquaresToPiece[m.From()] == Pawn || g.SquaresToPiece[g.CaptureSq(m)] != NoPiece {
+					clock = 0
+				} else {
+					clock++
+				}
+				maxClock = max(maxClock, clock)
+				g.MakeMove(m)
+				ops = append(ops, mkOp(m))
+			}
+			return ""
+		}()
+		depth := len(ops)
+		if genPanic != "" {
+			path := []string{"fen " + fen}
+			for _, o := range ops {
+				path = append(path, o.req)
+			}
+			e.r.Fail(common.Mismatch{Property: prop, Kind: "failing-input", Ops: path, Impl: "panic: " + genPanic, Note: "panic while playing the walk forward"})
+			continue
+		}
+		for i := depth - 1; i >= 0; i-- {
+			if ops[i].kind == 'n' {
+				ops = append(ops, op{req: "unm", kind: 'v'})
+			} else {
+				ops = append(ops, umOp(ops[i].m))
+			}
+		}
+		e.r.Count("clockwalk", 1)
+		e.r.Count("clockwalk-ops", len(ops))
+		e.r.Count("clockwalk-nullmoves", nulls)
+		e.r.Count("clockwalk-makes-at-clock>=128", wrappedMakes)
+		e.r.Count("clockwalk-makes-at-clock>=128-with-castling-rights", rightsAtWrap)
+		e.r.Count("clockwalk-rights-given-up-at-clock>=128", lateRightsLoss)
+		e.r.Count("clockwalk-levels-with-ep-target", epLevels)
+		if late {
+			e.r.Count("clockwalk-from-clock-90..100-fen", 1)
+		}
+		if wantRights {
+			e.r.Count("clockwalk-root-with-castling-rights", 1)
+		}
+		if broke {
+			e.r.Count("clockwalk-irreversible-move-at-clock>=128", 1)
+		}
+		for _, lim := range []int{100, 127, 128, 160, 255} {
+			if maxClock > lim {
+				e.r.Count(fmt.Sprintf("clockwalk-max-clock>%d", lim), 1)
+			}
+		}
+		if maxClock >= 128 {
+			e.r.Nontrivial(fmt.Sprintf("clock %s %d %v", fen, depth, ops[:min(8, depth)]))
+		}
+		e.runDeep(prop, fen, b, ops)
 	}
 }
 
@@ -896,6 +1099,193 @@ func (e *env) deepWalks(prop string, n int) {
 			e.r.Nontrivial(fmt.Sprintf("deep %s %d %v", fen, depth, ops[:8]))
 		}
 		e.runDeep(prop, fen, b, ops)
+	}
+}
+
+// aliasWalks: make/undo walks WITH INTERFERENCE.  Two or three boards obtained the ways the repository
+// obtains boards (board.StartPos(); board.FromFEN called several times with the same FEN; one of each)
+// are alive at once.  A random interleaving of makes (legal moves, null moves) and undos runs on all of
+// them, so that between a make on one board and its undo the other boards make (and undo, or not)
+// moves at plies below, at and above that board's depth; finally every board is unwound to its root.
+// Every board must satisfy undo(make) = identity on its FULL snapshot (incl. the whole hash history):
+// the snapshot taken before every make is compared after the matching undo; a board that is not
+// operated must not change while another one is; and every board's own op sequence, replayed alone
+// in the model, must give the dumps the implementation showed after each of its ops.  Every op runs
+// under recover().
+func (e *env) aliasWalks(prop string, sessions int) {
+	rng := e.c.Rng
+	type saved struct {
+		snap string
+		r    board.Reverse
+		m    move.Move
+		null bool
+	}
+	for s := 0; s < sessions; s++ {
+		way := []string{"startpos", "fromfen-same-fen", "startpos+fromfen"}[s%3]
+		nb := 2 + rng.IntN(2)
+		fen := StartPosFEN
+		if way == "fromfen-same-fen" && rng.IntN(3) != 0 {
+			for {
+				f, _ := e.s.Next()
+				if b, valid, _ := e.load(prop, f); b != nil && valid && len(implutil.Legal(b)) > 0 {
+					fen = f
+					break
+				}
+			}
+		}
+		boards := make([]*board.Board, nb)
+		for i := range boards {
+			if way == "startpos" || (way == "startpos+fromfen" && i%2 == 0) {
+				boards[i] = board.StartPos()
+			} else {
+				boards[i], _ = board.FromFEN(fen)
+			}
+		}
+		stacks := make([][]saved, nb)
+		reqs := make([][]string, nb)  // per board: its own ops for the model
+		dumps := make([][]string, nb) // per board: the implementation's dump after each own op
+		cur := make([]string, nb)     // per board: its dump after its last own op
+		for i, b := range boards {
+			cur[i] = implutil.Dump(b)
+		}
+		var path []string
+		path = append(path, fmt.Sprintf("%d boards (%s) of fen %s", nb, way, fen))
+		maxDepth, crossings := 0, 0
+		failed := false
+		fail := func(kind, impl, spec, note string) {
+			if !failed {
+				e.r.Fail(common.Mismatch{Property: prop, Kind: kind, Ops: append([]string{}, path...), Impl: impl, Spec: spec, Note: note})
+			}
+			failed = true
+		}
+		step := func(i int, undo bool) {
+			b := boards[i]
+			name := string(rune('A' + i))
+			perr := func() (msg string) {
+				defer func() {
+					if r := recover(); r != nil {
+						msg = fmt.Sprint(r)
+					}
+				}()
+				if undo {
+					sv := stacks[i][len(stacks[i])-1]
+					stacks[i] = stacks[i][:len(stacks[i])-1]
+					if sv.null {
+						b.UndoNullMove(sv.r)
+						path = append(path, name+" unm")
+						reqs[i] = append(reqs[i], "unm")
+					} else {
+						b.UndoMove(sv.m, sv.r)
+						path = append(path, name+" um "+strconv.Itoa(int(sv.m)))
+						reqs[i] = append(reqs[i], "um "+strconv.Itoa(int(sv.m)))
+					}
+					d := implutil.Dump(b)
+					b.Hash()
+					dumps[i] = append(dumps[i], d)
+					cur[i] = d
+					if d != sv.snap {
+						fail("failing-input", d, sv.snap, fmt.Sprintf("undo on board %s at nesting depth %d did not restore the snapshot taken before the make (whole hash history compared); other boards were operated in between", name, len(stacks[i])+1))
+					}
+					return ""
+				}
+				before := implutil.Dump(b)
+				for j := range boards { // does the make happen at a ply at or below another board's depth?
+					if j != i && len(stacks[i]) < len(stacks[j]) {
+						crossings++
+						break
+					}
+				}
+				if !b.InCheck(b.STM) && rng.IntN(8) == 0 {
+					r := b.MakeNullMove()
+					stacks[i] = append(stacks[i], saved{snap: before, r: r, null: true})
+					path = append(path, name+" nm")
+					reqs[i] = append(reqs[i], "nm")
+					d := implutil.Dump(b) + " | " + implutil.Token(r)
+					dumps[i] = append(dumps[i], d)
+				} else {
+					l := implutil.Legal(b)
+					if len(l) == 0 {
+						return ""
+					}
+					m := l[rng.IntN(len(l))]
+					r := b.MakeMove(m)
+					stacks[i] = append(stacks[i], saved{snap: before, r: r, m: m})
+					path = append(path, name+" mkq "+strconv.Itoa(int(m)))
+					reqs[i] = append(reqs[i], "mkq "+strconv.Itoa(int(m)))
+					dumps[i] = append(dumps[i], implutil.Dump(b)+" | "+implutil.Token(r))
+				}
+				b.Hash()
+				cur[i] = implutil.Dump(b)
+				maxDepth = max(maxDepth, len(stacks[i]))
+				return ""
+			}()
+			e.r.Evaluations++
+			if perr != "" {
+				fail("failing-input", "panic: "+perr, "", "panic on board "+name)
+				return
+			}
+			// the boards that were not operated must not have changed
+			for j, x := range boards {
+				if j == i {
+					continue
+				}
+				func() {
+					defer func() {
+						if r := recover(); r != nil {
+							fail("failing-input", fmt.Sprint("panic: ", r), "", "panic while reading board "+string(rune('A'+j)))
+						}
+					}()
+					if d := implutil.Dump(x); d != cur[j] {
+						fail("failing-input", d, cur[j], fmt.Sprintf("board %s changed (full snapshot incl. hash history) while board %s was operated", string(rune('A'+j)), name))
+					}
+				}()
+			}
+		}
+		total := 150 + rng.IntN(e.c.Pick(250, 500))
+		act := 0
+		for k := 0; k < total && !failed; k++ {
+			if rng.IntN(3) == 0 {
+				act = rng.IntN(nb)
+			}
+			undo := len(stacks[act]) > 0 && rng.IntN(5) < 2
+			step(act, undo)
+		}
+		for !failed { // full unwinding, single undos on the boards in random order
+			var open []int
+			for i := range boards {
+				if len(stacks[i]) > 0 {
+					open = append(open, i)
+				}
+			}
+			if len(open) == 0 {
+				break
+			}
+			step(open[rng.IntN(len(open))], true)
+		}
+		e.r.Count("aliaswalk-sessions:"+way, 1)
+		e.r.Count(fmt.Sprintf("aliaswalk-boards-alive=%d", nb), 1)
+		e.r.Count("aliaswalk-ops", len(path)-1)
+		e.r.Count("aliaswalk-makes-at-or-below-another-boards-depth", crossings)
+		if maxDepth > 127 {
+			e.r.Count("aliaswalk-depth>127", 1)
+		}
+		e.r.Nontrivial(fmt.Sprintf("alias %s %d %v", fen, nb, path[1:min(len(path), 10)]))
+		if failed {
+			continue
+		}
+		// every board's own op sequence replayed alone in the model
+		for i := range boards {
+			ans := e.m.Batch(append([]string{"fen " + fen}, reqs[i]...))[1:]
+			for k := range reqs[i] {
+				if ans[k] != dumps[i][k] {
+					own := []string{"fen " + fen}
+					own = append(own, reqs[i][:k+1]...)
+					e.r.Fail(common.Mismatch{Property: prop, Kind: "broken-correspondence", Ops: own, Impl: dumps[i][k], Model: ans[k],
+						Note: fmt.Sprintf("board %s of %d (%s), operated in alternation with the others", string(rune('A'+i)), nb, way)})
+					break
+				}
+			}
+		}
 	}
 }
 
@@ -1656,7 +2046,7 @@ func (e *env) exhaustive(extra []int8) {
 
 func (e *env) c10() {
 	games := e.c.Pick(150, 6000)
-	e.r.Rule = "game histories from valid starts (random play with a shuffling bias towards reversible moves, so positions recur, castling rights get lost and en-passant rights are transient), via MakeMove and via the UCI position command; after every ply Threefold() vs the Lean model vs the art. 9.2.2 count of the rule-book spec over the whole history (capped at 3); non-trivial = ply whose count is >= 2; distinct by (start FEN, move prefix). Added: directed en-passant situations (EPDirected / EPGeometry: discovered check through the origin square, capturer pinned on diagonal / file / rank, two capturers, checking pusher; both colours) followed by reversible round trips of 4 / 6 / 8 plies (ephist-*), and 2-3 boards from StartPos() / FromFEN(same FEN) alive at once and advanced alternately, each compared with its own history (alias-*)"
+	e.r.Rule = "game histories from valid starts (random play with a shuffling bias towards reversible moves, so positions recur, castling rights get lost and en-passant rights are transient), via MakeMove and via the UCI position command; after every ply Threefold() vs the Lean model vs the art. 9.2.2 count of the rule-book spec over the whole history (capped at 3); non-trivial = ply whose count is >= 2; distinct by (start FEN, move prefix). Added: directed en-passant situations (EPDirected / EPGeometry: discovered check through the origin square, capturer pinned on diagonal / file / rank, two capturers, checking pusher; both colours) followed by reversible round trips of 4 / 6 / 8 plies (ephist-*), incl. wrap geometry (EPWrap: pushes on every file, a/h emphasised, enemy pawns on the linear-index neighbours of the destination across the board edge, with and without a real capturer; epwrap <file>:<wrap square>:<capturer>[:recurs]), and 2-3 boards from StartPos() / FromFEN(same FEN) alive at once and advanced alternately, each compared with its own history (alias-*)"
 	rng := e.c.Rng
 	e.c10Scan()
 	// regression corpus: histories that failed before (run first, every time)
@@ -1819,7 +2209,7 @@ func (e *env) c10() {
 		}
 	}
 	// directed en-passant situations followed by reversible round trips (both colours)
-	e.c10EPHistories(e.c.Pick(350, 12000))
+	e.c10EPHistories(e.c.Pick(580, 20000))
 	// several boards alive at once, advanced alternately (aliasing between board values)
 	e.c10Aliasing(e.c.Pick(45, 1500))
 }
@@ -2034,11 +2424,16 @@ func (e *env) c10EPHistories(games int) {
 	rng := e.c.Rng
 	for g := 0; g < games; g++ {
 		var ec posgen.EPCase
+		var wrap posgen.EPWrapInfo
 		ok, kind := false, "epdirected"
-		if g%3 == 0 {
+		switch g % 5 {
+		case 0:
 			ec, ok = posgen.EPDirected(rng)
-		} else {
+		case 1, 2:
 			ec, kind, ok = posgen.EPGeometry(rng)
+		default: // wrap geometry: pushes on every file, edge files emphasised, pawns on the linear-index neighbours
+			kind = "epwrap"
+			ec, wrap, ok = posgen.EPWrap(rng)
 		}
 		if !ok {
 			continue
@@ -2095,6 +2490,19 @@ func (e *env) c10EPHistories(games int) {
 				}
 				recurs++
 				e.r.Count(fmt.Sprintf("ephist-roundtrip-%d-plies-returned", L), 1)
+			}
+			if kind == "epwrap" {
+				e.r.Count("epwrap-games", 1)
+				e.r.Count("epwrap "+wrap.Key(), 1)
+				if recurs > 0 {
+					e.r.Count("epwrap "+wrap.Key()+":recurs", 1)
+				}
+				if wrap.Linear && !wrap.Capturer {
+					e.r.Count("epwrap-linear-neighbour-without-capturer:"+rec, 1)
+					if recurs > 0 {
+						e.r.Count("epwrap-linear-neighbour-without-capturer-recurs:"+rec, 1)
+					}
+				}
 			}
 			if recurs > 0 {
 				e.r.Count("ephist-postpush-position-recurs:"+rec, 1)
